@@ -23,7 +23,10 @@ type Input struct {
 	Balancer   string      `json:"balancer"` // "range" | "roundrobin" | "rack"
 	Members    []Member    `json:"members"`
 	Partitions []Partition `json:"partitions"`
-	Leader     string      `json:"leader"` // "": call AssignGroups directly; otherwise the member that leads a real group (leader.go)
+	Late       []Member    `json:"late"`    // leader path: members that join after generation 1
+	Leave      []string    `json:"leave"`   // leader path: members that leave after generation 1
+	Leader2    string      `json:"leader2"` // leader path: preferred leader of generation 2 (effective when the first one left)
+	Leader     string      `json:"leader"`  // "": call AssignGroups directly; otherwise the member that leads a real group (leader.go)
 }
 
 type Member struct {
@@ -76,6 +79,7 @@ type Line struct {
 	Generation int      `json:"generation"`
 	Err        string   `json:"err"`
 	Asked      []string `json:"asked"`
+	Phase      int      `json:"phase"`
 }
 
 func balancer(name string) (kafka.GroupBalancer, error) {
